@@ -98,6 +98,15 @@ NEST = [
     ("function-body", "let fb = func (p) =>\n    @F@;", "let r = fb(\n    1\n);"),
     ("module-body", "let mb = module {\n    a = 1,\n} => {\n    let inner =\n        @F@;\n};", "let r = mb{\n    a = 2,\n};"),
     ("copy-field", "let q = tt{\n    extra = @F@,\n};", None),
+    # the fault sits in a function that map / filter / reduce call back, over a collection defined in yet another statement
+    ("callback-function-called-by-map", "let cb = func (it) =>\n    @F@;", "let r = map(\n    cb,\n    ll\n);"),
+    ("callback-function-called-by-filter", "let cb = func (it) =>\n    @F@;", "let r = filter(\n    cb,\n    ll\n);"),
+    ("callback-function-called-by-reduce", "let cb = func (acc, it) =>\n    @F@;", "let r = reduce(\n    cb,\n    0,\n    ll\n);"),
+    ("callback-function-called-by-map-over-tuple", "let cb = func (k, it) =>\n    @F@;", "let r = map(\n    cb,\n    tt\n);"),
+    ("callback-function-called-by-reduce-over-tuple", "let cb = func (acc, k, it) =>\n    @F@;", "let r = reduce(\n    cb,\n    0,\n    tt\n);"),
+    ("callback-function-called-by-map-over-string", "let cb = func (it) =>\n    @F@;", "let r = map(\n    cb,\n    sv\n);"),
+    ("filter-callback", "let q = filter(\n    func (it) => @F@,\n    ll\n);", None),
+    ("reduce-callback", "let q = reduce(\n    func (acc, it) => @F@,\n    0,\n    ll\n);", None),
     ("map-callback", "let q = map(\n    func (it) => @F@,\n    ll\n);", None),
     ("format-argument", "let q = \"v=@\" % (\n    @F@\n);", None),
     ("binary-right-operand", "let q = tt.have +\n    @F@;", None),
@@ -157,7 +166,7 @@ def gen_cases(thorough):
         for (n, t, c), (en, et) in itertools.product(NEST, EXPR_NEST):
             nests.append((n + "/" + en, t.replace("@F@", et), c))
     for (fname, ftext), (nname, ntext, caller) in itertools.product(FAULTS, nests):
-        if fname.startswith("syntax") and nname.split("/")[0] in ("function-body", "module-body"):
+        if fname.startswith("syntax") and (nname.split("/")[0] in ("function-body", "module-body") or nname.startswith("callback-function")):
             continue        # a syntax fault is found while parsing, not when the function / module is used
         faulty = ntext.replace("@F@", ftext)
         for idx in range(0, nbase + 1):
